@@ -68,7 +68,8 @@ Txns(a, tx, i, cols) ==
                   /\ G("discard = removed - added (C04)", D = SS!SubState(SumIds(rm, cols), SumIds(add, cols)))
                   /\ G("recorded output = sum of the setsums of the listed SSTs (C04)", O = SumIds(listed2, cols))
                THEN Txns([a EXCEPT !.listed = listed2, !.O = O], tx, i + 1, cols) ELSE [a EXCEPT !.listed = {"REJECTED"}]
-\* the accounting step of an event that may carry manifest transactions
+\* the accounting step of an event that may carry manifest transactions (acct also carries the
+\* scan cursors held open, which every step but hold/step/drop/reopen leaves alone)
 Acct(ev) ==
   IF "txns" \in DOMAIN ev
   THEN LET cols == AddCols(acct.cols, ev.newfiles, 1)
@@ -92,7 +93,7 @@ ReadsOk(ev, all2, ks) ==
             \A k \in ks : GetCode(ev.gets[k]) = Visible(MechLoad(mem', levels', files', k, MAXTS)))
 
 TraceInit == /\ l = 1 /\ keys = {} /\ mem = {} /\ levels = <<>> /\ files = <<>> /\ all = {} /\ gcd = {} /\ lastKind = "none" /\ devUsed = {}
-             /\ acct = [listed |-> {}, O |-> SS!ZeroState, cols |-> <<>>]
+             /\ acct = [listed |-> {}, O |-> SS!ZeroState, cols |-> <<>>, held |-> <<>>]
 
 \* "open" starts a new run: fresh database
 Open == /\ IsEvent("open") /\ NoErr
@@ -102,9 +103,9 @@ Open == /\ IsEvent("open") /\ NoErr
         /\ levels' = Ev.levels
         /\ Ids(levels') = {}
         /\ IF "txns" \in DOMAIN Ev
-           THEN LET a2 == Txns([listed |-> {}, O |-> SS!ZeroState, cols |-> <<>>], Ev.txns, 1, <<>>)
+           THEN LET a2 == Txns([listed |-> {}, O |-> SS!ZeroState, cols |-> <<>>, held |-> <<>>], Ev.txns, 1, <<>>)
                 IN a2.listed # {"REJECTED"} /\ acct' = a2
-           ELSE acct' = [listed |-> {}, O |-> SS!ZeroState, cols |-> <<>>]
+           ELSE acct' = [listed |-> {}, O |-> SS!ZeroState, cols |-> <<>>, held |-> <<>>]
         /\ ReadsOk(Ev, {}, keys')
 
 Write == /\ IsEvent("write") /\ NoErr
@@ -182,7 +183,14 @@ Reopen == /\ IsEvent("reopen") /\ NoErr
                  fires == "RecoverLevelsFromMetadata" \in Dev /\ ~LevelsDisjoint(levels', files') /\ asCoded
              IN devUsed' = IF fires THEN devUsed \cup {(PrintT(<<"DEV-USED", "RecoverLevelsFromMetadata", l>>) :> "RecoverLevelsFromMetadata")[TRUE]}
                            ELSE devUsed
-          /\ Acct(Ev)
+          /\ IF "txns" \in DOMAIN Ev
+             THEN LET cols == AddCols(acct.cols, Ev.newfiles, 1)
+                      a2 == Txns([acct EXCEPT !.cols = cols], Ev.txns, 1, cols)
+                  IN /\ G("each SST's setsum = sum over its stored entries (C04)", FilesBalance(Ev.newfiles))
+                     /\ a2.listed # {"REJECTED"}
+                     /\ G("the manifest lists exactly the SSTs of the tree (C04)", a2.listed = Ids(levels'))
+                     /\ acct' = [a2 EXCEPT !.held = <<>>]
+             ELSE acct' = [acct EXCEPT !.held = <<>>]
           /\ ReadsOk(Ev, all, keys)
 
 \* offline verifier pass: accepts (or asks to back off); contents unchanged
@@ -203,6 +211,23 @@ ScanProg == /\ IsEvent("scanprog") /\ NoErr
                   THEN G("scan program = ideal cursor (C03)", [i \in 1..Len(Ev.obs) |-> E(Ev.obs[i])] = RunIdeal(ideal, 0, calls, 1))
                   ELSE G("scan program = composed cursors on the logged levels (mechanism)", [i \in 1..Len(Ev.obs) |-> E(Ev.obs[i])] = mech)
 
+\* C07: a scan cursor held open is a stable snapshot: whatever happens to the store afterwards, every
+\* call on it shows what the ideal cursor over the live keys AT THE TIME IT WAS OPENED shows
+Hold == /\ IsEvent("hold") /\ NoErr
+        /\ UNCHANGED <<keys, mem, levels, files, all, gcd, devUsed>>
+        /\ acct' = [acct EXCEPT !.held = (Ev.id :> [all |-> all, lo |-> B(Ev.lo), hi |-> B(Ev.hi), pos |-> 0]) @@ @]
+HeldStep == /\ IsEvent("step") /\ NoErr
+            /\ UNCHANGED <<keys, mem, levels, files, all, gcd, devUsed>>
+            /\ LET hc == acct.held[Ev.id]
+                   ideal == IdealScan(hc.all, hc.lo, hc.hi, MAXTS)
+                   calls == [i \in 1..Len(Ev.calls) |-> Ev.calls[i]]
+               IN /\ G("a held scan cursor keeps showing the contents at the time it was opened (C07)",
+                       devUsed # {} \/ [i \in 1..Len(Ev.obs) |-> E(Ev.obs[i])] = RunIdeal(ideal, hc.pos, calls, 1))
+                  /\ acct' = [acct EXCEPT !.held[Ev.id].pos = FinalPos(ideal, hc.pos, calls, 1)]
+HeldDrop == /\ IsEvent("drop") /\ NoErr
+            /\ UNCHANGED <<keys, mem, levels, files, all, gcd, devUsed>>
+            /\ acct' = [acct EXCEPT !.held = [i \in DOMAIN acct.held \ {Ev.id} |-> acct.held[i]]]
+
 \* the driver skipped an op that would block a single-threaded run (write stall): nothing changes
 Skip == /\ IsEvent("skip") /\ NoErr
         /\ UNCHANGED <<keys, mem, levels, files, all, gcd, devUsed>>
@@ -210,7 +235,7 @@ Skip == /\ IsEvent("skip") /\ NoErr
         /\ Acct(Ev)
         /\ ReadsOk(Ev, all, keys)
 
-TraceNext == Skip \/ Open \/ Write \/ Flush \/ Ingest \/ Compact \/ Reopen \/ Verify \/ ScanProg
+TraceNext == Hold \/ HeldStep \/ HeldDrop \/ Skip \/ Open \/ Write \/ Flush \/ Ingest \/ Compact \/ Reopen \/ Verify \/ ScanProg
 TraceSpec == TraceInit /\ [][TraceNext]_vars
 
 (* invariants evaluated in every state of the trace *)
